@@ -88,6 +88,16 @@ def monitor_missing_dep_never_fails(run, where, inv, meta, hist, ii, rep):
         msg = unhexs(inv.result[4:]).decode("utf-8", "replace")
         if "missing" in msg and "missing_" in msg:
             run.report_failure(None, "a discovered dependency that disappeared failed the build: %s" % msg[:120], where)
+            return
+        # any refusal that names a file no statement of the manifest mentions: such a file can only be a reported dependency
+        if "missing" in msg and inv.graphs and not inv.graphs[-1].error:
+            g = inv.graphs[-1]
+            declared = {f["name"] for f in g.files}
+            import re as _re
+            for name in _re.findall(r"[A-Za-z0-9_./-]+\.h", msg):
+                if name not in declared and name not in meta.get("targets", []):
+                    run.report_failure(None, "a reported dependency that has disappeared (%s, named by no statement) failed the build: %s" % (name, msg[:120]), where)
+                    return
 
 
 def monitor_discovered_never_blocks(run, where, inv, meta, hist, ii, rep):
